@@ -110,6 +110,11 @@ func isPrimitiveDesc(d protoreflect.MessageDescriptor) bool {
 func (g *resGen) fillMessage(m protoreflect.Message, depth int) {
 	d := m.Descriptor()
 	g.budget--
+	// a message written by a newer producer: fields this schema does not know travel along as
+	// unknown fields, and are part of the message (proto.Equal and every re-encoding see them)
+	if d.FullName() != "google.protobuf.Any" && g.r.p(0.012) {
+		m.SetUnknown(protowire.AppendVarint(protowire.AppendTag(nil, 9000+protowire.Number(g.r.n(50)), protowire.VarintType), uint64(g.r.n(1000))))
+	}
 	switch {
 	case d.FullName() == "google.protobuf.Any":
 		return
@@ -347,7 +352,25 @@ func (g *resGen) fillExtension(m protoreflect.Message, depth int) {
 // foreignAny sometimes re-encodes an Any the way another producer might have written it: a
 // type URL with another host prefix, and the payload's fields in descending field-number order
 // (equal content, different bytes). Reading such a payload must not rewrite it.
+// bareAnyRate: how often a contained entry holds the resource itself instead of the wrapper. Zero
+// for C18: patch and plain evaluation fail at different points on such an entry, and the C18 model
+// takes what a path selects from a plain evaluation (malformed input is not that property's subject).
+var bareAnyRate = 0.04
+
 func (g *resGen) foreignAny(a *anypb.Any) {
+	if g.r.p(bareAnyRate) {
+		// a producer that packed the resource itself instead of the ContainedResource wrapper: the
+		// library refuses to enter such an entry - and must leave it as it is
+		cr := newMessage(findDesc("ContainedResource"))
+		if a.UnmarshalTo(cr.Interface()) == nil {
+			if _, inner := wrapperAlt(cr); inner != nil {
+				if b, err := anypb.New(inner.Interface()); err == nil {
+					a.TypeUrl, a.Value = b.TypeUrl, b.Value
+					return
+				}
+			}
+		}
+	}
 	if g.r.p(0.2) {
 		a.TypeUrl = "fhir.example.org/" + a.TypeUrl[strings.LastIndexByte(a.TypeUrl, '/')+1:]
 	}
